@@ -103,7 +103,7 @@ def set_layer_cases(tier, layer):
     if layer == 'set1':
         return _set_cases(AB.A_PAIR_T, 1, allo)
     if layer == 'set2':
-        return _set_cases(AB.A_PAIR_T if th else AB.A_PAIR, 2, [0])
+        return _set_cases(AB.A_PAIR_T if th else AB.A_PAIR_Q, 2, [0])
     if layer == 'set2opt':
         return _set_cases(AB.A_OPT_T if th else AB.A_OPT_Q, 2, allo[1:])
     if layer == 'set3':
